@@ -249,6 +249,18 @@ def run_check(prop: str, run_rules, *, tier='quick', replay=None, thorough_extra
             print(f'ANALYSIS-ERROR property={prop} self-test could not run: {type(e).__name__}: {e}')
             return 2
         extra.update(summary)
+        try:
+            from selftest.engine import seeds_for
+
+            keep_env = os.environ.get('MPSA_REPO')
+            ssum, sfailed = seeds_for(prop)
+            if keep_env is not None:
+                os.environ['MPSA_REPO'] = keep_env
+            extra.update(ssum)
+            failed_variants = list(failed_variants) + sfailed
+            print(f'  seeded changes: {len(ssum["seeded_changes_reported"])} reported, {len(ssum["seeded_changes_skipped"])} skipped, {len(sfailed)} missed')
+        except Exception as e:  # noqa: BLE001
+            print(f'  note: seeded-change regression could not run: {type(e).__name__}: {e}')
         half = summary['selftest_variants'] // 2
         if failed_variants or (summary['selftest_variants'] and len(summary['selftest_skipped']) > half):
             for r in failed_variants[:10]:
